@@ -820,7 +820,7 @@ func (r *Regex) ReplaceAllLiteral(src, repl []byte) []byte {
 		// This matches Go stdlib behavior (see FindAllIndex for details).
 		//nolint:gocritic // badCond: intentional - checking empty match at lastMatchEnd
 		if start == end && start == lastMatchEnd {
-			pos++
+			pos = pos + emptyMatchStep(src, pos)
 			if pos > len(src) {
 				break
 			}
@@ -843,7 +843,7 @@ func (r *Regex) ReplaceAllLiteral(src, repl []byte) []byte {
 
 		switch {
 		case start == end:
-			pos = end + 1
+			pos = end + emptyMatchStep(src, end)
 		case end > pos:
 			pos = end
 		default:
@@ -891,7 +891,7 @@ func (r *Regex) ReplaceAllLiteralString(src, repl string) string {
 
 		//nolint:gocritic // badCond: intentional - checking empty match at lastMatchEnd
 		if start == end && start == lastMatchEnd {
-			pos++
+			pos = pos + emptyMatchStep(b, pos)
 			if pos > len(src) {
 				break
 			}
@@ -913,7 +913,7 @@ func (r *Regex) ReplaceAllLiteralString(src, repl string) string {
 
 		switch {
 		case start == end:
-			pos = end + 1
+			pos = end + emptyMatchStep(b, end)
 		case end > pos:
 			pos = end
 		default:
@@ -1126,7 +1126,7 @@ func (r *Regex) ReplaceAll(src, repl []byte) []byte {
 		// This matches Go's stdlib behavior for preventing duplicate empty matches.
 		//nolint:gocritic // badCond: intentional - checking empty match at lastNonEmptyMatchEnd
 		if absStart == absEnd && absStart == lastNonEmptyMatchEnd {
-			pos++
+			pos = pos + emptyMatchStep(src, pos)
 			if pos > len(src) {
 				break
 			}
@@ -1149,8 +1149,8 @@ func (r *Regex) ReplaceAll(src, repl []byte) []byte {
 		// Move position past this match
 		switch {
 		case absStart == absEnd:
-			// Empty match: advance by 1 to avoid infinite loop
-			pos = absEnd + 1
+			// Empty match: advance by one character to avoid infinite loop
+			pos = absEnd + emptyMatchStep(src, absEnd)
 		case absEnd > pos:
 			pos = absEnd
 		default:
@@ -1210,7 +1210,7 @@ func (r *Regex) ReplaceAllFunc(src []byte, repl func([]byte) []byte) []byte {
 
 		//nolint:gocritic // badCond: intentional - checking empty match at lastMatchEnd
 		if start == end && start == lastMatchEnd {
-			pos++
+			pos = pos + emptyMatchStep(src, pos)
 			if pos > len(src) {
 				break
 			}
@@ -1232,7 +1232,7 @@ func (r *Regex) ReplaceAllFunc(src []byte, repl func([]byte) []byte) []byte {
 
 		switch {
 		case start == end:
-			pos = end + 1
+			pos = end + emptyMatchStep(src, end)
 		case end > pos:
 			pos = end
 		default:
@@ -1284,7 +1284,7 @@ func (r *Regex) ReplaceAllStringFunc(src string, repl func(string) string) strin
 
 		//nolint:gocritic // badCond: intentional - checking empty match at lastMatchEnd
 		if start == end && start == lastMatchEnd {
-			pos++
+			pos = pos + emptyMatchStep(b, pos)
 			if pos > len(src) {
 				break
 			}
@@ -1306,7 +1306,7 @@ func (r *Regex) ReplaceAllStringFunc(src string, repl func(string) string) strin
 
 		switch {
 		case start == end:
-			pos = end + 1
+			pos = end + emptyMatchStep(b, end)
 		case end > pos:
 			pos = end
 		default:
@@ -1508,6 +1508,17 @@ func (r *Regex) FindAllStringSubmatchIndex(s string, n int) [][]int {
 	return r.FindAllSubmatchIndex(stringToBytes(s), n)
 }
 
+// emptyMatchStep returns how far an enumeration loop advances after an empty match at
+// pos: the width of the UTF-8 sequence starting at b[pos] (1 for a byte that does not
+// start a well-formed sequence), as Go's regexp does, and 1 at the end of the input.
+func emptyMatchStep(b []byte, pos int) int {
+	if pos >= len(b) || b[pos] < utf8.RuneSelf {
+		return 1
+	}
+	_, size := utf8.DecodeRune(b[pos:])
+	return size
+}
+
 // AllIndex returns an iterator over all successive non-overlapping match index
 // pairs in b. Each yielded [2]int contains the start and end byte offsets of a
 // match. Matches are returned left-to-right.
@@ -1517,7 +1528,7 @@ func (r *Regex) FindAllStringSubmatchIndex(s string, n int) [][]int {
 //
 // Empty match handling follows Go stdlib regexp semantics: an empty match at a
 // position where a non-empty match just ended is skipped, and the search
-// advances by one byte after each empty match.
+// advances by one code point after each empty match.
 //
 // Example:
 //
@@ -1542,7 +1553,7 @@ func (r *Regex) AllIndex(b []byte) iter.Seq[[2]int] {
 			// This matches Go stdlib behavior.
 			//nolint:gocritic // badCond: intentional - checking empty match at lastMatchEnd
 			if start == end && start == lastMatchEnd {
-				pos++
+				pos += emptyMatchStep(b, pos)
 				if pos > len(b) {
 					return
 				}
@@ -1554,10 +1565,16 @@ func (r *Regex) AllIndex(b []byte) iter.Seq[[2]int] {
 			if start != end {
 				lastMatchEnd = end
 			}
-			if end == pos {
-				pos++
-			} else {
+			// Move position past this match (same rule as Engine.FindAllIndicesStreaming).
+			switch {
+			case start == end:
+				// Empty match, possibly found beyond pos: resume after the code
+				// point that follows it, otherwise it would be yielded twice.
+				pos = end + emptyMatchStep(b, end)
+			case end > pos:
 				pos = end
+			default:
+				pos++
 			}
 		}
 	}
